@@ -19,7 +19,9 @@ LEVEL = "exploration"
 EXHAUSTIVE = True
 RULE = ("random rule trees (depth<=3, <=4 children per rule, children drawn from refinement / alternative / next_rule "
         "in any written order, refinement-of-refinement, alternatives inside refinement and alternative blocks) over "
-        "1-2 variables whose base rule mentions every variable, conclusions tagged by branch; thorough adds every tree "
+        "1-2 variables whose base rule mentions every variable, conclusions tagged by branch and built from all or only "
+        "some of the variables; a fifth of the cases are deep chains (refinement of a refinement of a refinement with "
+        "alternatives / next_rules written inside the deeper blocks) over two variables; thorough adds every tree "
         "shape with <=4 branches over a one-variable 8-element domain.  Non-trivial = at least two different branches "
         "fire for some bindings and at least one binding fires nothing; distinct = tree shape (kinds and nesting) x "
         "condition skeletons")
@@ -58,7 +60,50 @@ def gen_rule(rng, names, depth, counter, gctx, kinds):
     return r
 
 
+def _simple_atom(rng, names, both=False):
+    def one(v):
+        return ["cmp", rng.choice(["<", "<=", ">", ">=", "==", "!="]), ["attr", ["var", v], rng.choice("ab")], ["lit", rng.randint(0, 2)]]
+    if both and len(names) > 1:
+        return ["and", one(names[0]), one(names[1])]
+    return one(rng.choice(names))
+
+
+def gen_chain(rng, names, depth, counter):
+    """a refinement of a refinement of ... with alternatives / next_rules written inside the deeper blocks; every
+    next_rule condition mentions all the variables (so nothing is unbound when it fires on its own) and alternatives
+    precede next_rules in a block (the listed alternative-after-next finding is kept out)"""
+    r = {"id": f"r{next(counter)}", "cond": _simple_atom(rng, names), "children": []}
+    if depth > 0:
+        kids = [["ref", gen_chain(rng, names, depth - 1, counter)]]
+        if rng.random() < 0.3:
+            kids.append(["ref", gen_chain(rng, names, 0, counter)])
+        for _ in range(rng.choice([0, 1, 1, 2])):
+            kids.append(["alt", {"id": f"r{next(counter)}", "cond": _simple_atom(rng, names), "children": []}])
+        for _ in range(rng.choice([0, 1, 1, 2])):
+            kids.append(["next", {"id": f"r{next(counter)}", "cond": _simple_atom(rng, names, both=True), "children": []}])
+        r["children"] = kids
+    return r
+
+
 def gen(rng, tier, ctx):
+    if rng.random() < 0.2:
+        world = G.gen_world(rng, n=rng.randint(4, 7))
+        vars_ = GEN.gen_vars(rng, world, 2, allow_empty=False)
+        for v in vars_:
+            v["type"] = "P"
+            v["kind"] = rng.choice(["list", "gen"])
+        names = [v["name"] for v in vars_]
+        rule = gen_chain(rng, names, rng.randint(2, 3), itertools.count())
+        rule["cond"] = ["and", ["cmp", rng.choice([">=", "<=", "!="]), ["attr", ["var", "x"], rng.choice("ab")], ["attr", ["var", "y"], rng.choice("ab")]],
+                        rule["cond"]]
+        narrow = rng.random() < 0.5
+
+        def mark(r, root=False):
+            r["concl"] = "xy" if root else ("x" if narrow else rng.choice(["xy", "x", "x"]))
+            for _, ch in r["children"]:
+                mark(ch)
+        mark(rule, True)
+        return {"world": world, "vars": vars_, "rule": rule, "profile": "chain"}
     world = G.gen_world(rng, n=rng.randint(2, 6))
     nv = rng.choice([1, 1, 2])
     vars_ = GEN.gen_vars(rng, world, nv, allow_empty=False)
